@@ -629,11 +629,11 @@ Definition text_put (tface : face) (cells : list ccell) (c : ccell) : list ccell
 (* Text = String | [Text] | { face, wraps, glyph | text }.  Faces arrive parsed (FaceDeserializer is
    C14 matter); a glyph is the cell kind it becomes. *)
 Inductive jtext :=
-| JStr (chars : list N)
-| JArr (items : list jtext)
-| JObj (f : option face) (wr : option bool) (body : jbody)
+| TxStr (chars : list N)
+| TxArr (items : list jtext)
+| TxObj (f : option face) (wr : option bool) (body : jbody)
 with jbody :=
-| JBGlyph (k : kind)
+| JBGlyph (k : kind) (ignored : option jtext)   (* "glyph", and the "text" the same object may carry: not visited *)
 | JBText (t : jtext)
 | JBNone.
 
@@ -649,16 +649,16 @@ Definition j_put (st : jstate) (k : kind) : jstate :=
 
 Fixpoint jt_collect (st : jstate) (t : jtext) {struct t} : jstate :=
   match t with
-  | JStr chars => fold_left (fun a ch => j_put a (KChar ch)) chars st
-  | JArr items => (fix go (l : list jtext) (a : jstate) {struct l} : jstate :=
+  | TxStr chars => fold_left (fun a ch => j_put a (KChar ch)) chars st
+  | TxArr items => (fix go (l : list jtext) (a : jstate) {struct l} : jstate :=
                      match l with [] => a | x :: r => go r (jt_collect a x) end) items st
-  | JObj f wr body =>
+  | TxObj f wr body =>
       let face := match f with Some x => x | None => face0 end in
       let st1 := match wr with Some b => mkJ (j_cells st) b (j_face st) | None => st end in
       let old := j_face st1 in
       let st2 := mkJ (j_cells st1) (j_wraps st1) (overlay old face) in
       let st3 := match body with
-                 | JBGlyph k => j_put st2 k
+                 | JBGlyph k _ => j_put st2 k
                  | JBText t' => jt_collect st2 t'
                  | JBNone => st2
                  end in
@@ -669,13 +669,13 @@ Fixpoint jt_collect (st : jstate) (t : jtext) {struct t} : jstate :=
    each under the faces of the objects around it (outermost first) *)
 Fixpoint jt_emit (cur : face) (t : jtext) {struct t} : list ccell :=
   match t with
-  | JStr chars => map (fun ch => mkCell (overlay cur cur) (KChar ch)) chars
-  | JArr items => (fix go (l : list jtext) : list ccell :=
+  | TxStr chars => map (fun ch => mkCell (overlay cur cur) (KChar ch)) chars
+  | TxArr items => (fix go (l : list jtext) : list ccell :=
                      match l with [] => [] | x :: r => jt_emit cur x ++ go r end) items
-  | JObj f _ body =>
+  | TxObj f _ body =>
       let cur' := overlay cur (match f with Some x => x | None => face0 end) in
       match body with
-      | JBGlyph k => [mkCell (overlay cur' cur') k]
+      | JBGlyph k _ => [mkCell (overlay cur' cur') k]
       | JBText t' => jt_emit cur' t'
       | JBNone => []
       end
@@ -685,10 +685,10 @@ Fixpoint jt_emit (cur : face) (t : jtext) {struct t} : list ccell :=
    "text" is not visited) *)
 Fixpoint jt_wraps (w : bool) (t : jtext) {struct t} : bool :=
   match t with
-  | JStr _ => w
-  | JArr items => (fix go (l : list jtext) (a : bool) {struct l} : bool :=
+  | TxStr _ => w
+  | TxArr items => (fix go (l : list jtext) (a : bool) {struct l} : bool :=
                      match l with [] => a | x :: r => go r (jt_wraps a x) end) items w
-  | JObj _ wr body =>
+  | TxObj _ wr body =>
       let w1 := match wr with Some b => b | None => w end in
       match body with JBText t' => jt_wraps w1 t' | _ => w1 end
   end.
